@@ -277,6 +277,10 @@ def run(ctx):
     no_unsafe(ctx, r)
     verify_shape(ctx, r)
     subst_conformance(ctx, r)
+    # documented InstantiateSchema.well_formed: each constraint list is checked against the plug with the judgement of that name
+    from . import c01
+    c01.s4_instantiation(ctx, r)
+    ctx.floor('constraint-check', 6)
     ctx.floor('doc-arm', 46)
     ctx.floor('opcode-row', 30)
     ctx.floor('decode', 30)
